@@ -322,7 +322,9 @@ let exec (toks : string list) =
          | FFile content ->
            let ((w1, cfg1), rc) = parse_fp strtod_o fuel !w cfg content in
            w := w1; put ci cfg1 sp; std "parse_fp" ("rc=" ^ zrc rc)
-         | FDir -> std "parse_fp" "rc=1"    (* fopen succeeds on a directory; reading fails *)
+         | FDir ->                           (* fopen succeeds on a directory; reading fails *)
+           let ((w1, cfg1), rc) = parse_fp_unreadable strtod_o fuel !w cfg in
+           w := w1; put ci cfg1 sp; std "parse_fp" ("rc=" ^ zrc rc)
          | FMissing -> std "parse_fp" "rc=nofile"))
   | ["lex"; t] ->
     let text = (match ostr_of_hex t with Some s -> s | None -> []) in
